@@ -85,6 +85,12 @@ func VerifAppendString(dst, src []byte, encode bool) []byte {
 
 // VerifNextField exposes nextField.
 func (hp *HPACK) VerifNextField(hf *HeaderField, blockStart bool, fieldsProcessed int, b []byte) ([]byte, error) {
+	rest, _, err := hp.nextField(hf, blockStart, fieldsProcessed, b)
+	return rest, err
+}
+
+// VerifNextField2 exposes nextField with its decoded result.
+func (hp *HPACK) VerifNextField2(hf *HeaderField, blockStart bool, fieldsProcessed int, b []byte) ([]byte, bool, error) {
 	return hp.nextField(hf, blockStart, fieldsProcessed, b)
 }
 
